@@ -23,6 +23,9 @@ def run(ctx):
             jobs += j
     core_jobs = suites.core_suite(ctx, ctx.budget(160, 2500), configs=((2, 100, False), (2, 100, True), (4, 30, False), (4, 30, True)), faults=0.0)
     suites.conformance(ctx, jobs[:ctx.budget(300, 2000)])
+    import gen_special
+    for w in ((2,) if ctx.quick else (2, 4)):
+        jobs += [('%s_%s_w%d' % (tag, a[0], w), src, a, w, 200, False, 300000) for tag, src, a in gen_special.preempt_programs() + gen_special.try_exit_programs()]
     jobs += [j for j in core_jobs if not j[5]]
     tally, bad, res = suites.differential(ctx, jobs, None, kinds_bad=(), do_shrink=False, label='checked')
     faults = ('stack_overflow', 'division_by_zero', 'out_of_bounds', 'nonlocal_preempt')
